@@ -739,6 +739,10 @@ func (e *Exec) checkFrame(st *State, n ast.Node) {
 	env := e.funcEnv(e.entry, e.entry)
 	env.what = e.funcName() + " modifies"
 	targets := e.modTargets(env, e.contract.Modifies)
+	if len(e.contract.OwnMemory) > 0 {
+		targets = append(targets, e.modTargets(env, e.contract.OwnMemory)...)
+		e.assumptions["ASSUMED frame of "+e.funcName()+": the memory families listed under ownmemory are written only in objects allocated by the call (callers are told they do not change)"] = true
+	}
 	for _, u := range e.contract.Ghosts {
 		if g, ok := e.prog.specs.Ghosts[u.Name]; ok {
 			targets = append(targets, modTarget{kind: "ghost", name: u.Name, keys: []leafKey{{u.Name, specSort(g.Type)}}})
